@@ -27,7 +27,7 @@ func init() {
 	core.Register(&core.Prop{
 		ID:    "C08",
 		Level: "exploration",
-		Rule: "each case fixes a source of 100-400 multi-chunk files (plus link groups, directories, small files) and a prior destination (mutated copy) and runs the real Send+Receive under S schedules drawn from stream capacity {0,1,2,8,64} x seeded per-operation delays/yields inside stream calls (the endpoint dwells inside SendMsg/RecvMsg so a missing lock becomes an observable overlap), source reads, hasher and notify callbacks x GOMAXPROCS {1,2,4,16}; the binary is built with the Go race detector (halt_on_error). Outcomes (dest snapshot, REQ set, notification set with digests) of all schedules of a case must be equal up to the hard-link exception; the overlap detector of the harness stream must stay silent. After the schedule cases the quick workloads of other transfer checks (quick: C04 fault plans, C19 metadata-only; thorough: also C01 C02 C05 C06 C07 C11 C13 C16 C17) are repeated inside the race-instrumented binary; there only race reports count (observed race_sweep_cases_<id>). " +
+		Rule: "Every third case runs in merge mode with 1200-entry directories in the old destination where the source has files; one failing session per case (burst of requests, then a duplicate) is judged by the overlap detector and by 'no stream call of Send in flight at, or started after, its return'; a fault-free transfer that fails is a violation. each case fixes a source of 100-400 multi-chunk files (plus link groups, directories, small files) and a prior destination (mutated copy) and runs the real Send+Receive under S schedules drawn from stream capacity {0,1,2,8,64} x seeded per-operation delays/yields inside stream calls (the endpoint dwells inside SendMsg/RecvMsg so a missing lock becomes an observable overlap), source reads, hasher and notify callbacks x GOMAXPROCS {1,2,4,16}; the binary is built with the Go race detector (halt_on_error). Outcomes (dest snapshot, REQ set, notification set with digests) of all schedules of a case must be equal up to the hard-link exception; the overlap detector of the harness stream must stay silent. After the schedule cases the quick workloads of other transfer checks (quick: C04 fault plans, C19 metadata-only; thorough: also C01 C02 C05 C06 C07 C11 C13 C16 C17) are repeated inside the race-instrumented binary; there only race reports count (observed race_sweep_cases_<id>). " +
 			"non-trivial = schedule run with >=50 content requests; distinct by interleaving fingerprint (hash of the merged order of (endpoint, op, packet type, id) events)",
 		Assumptions: []string{"root", "schedules the Go runtime does not produce in the run are not covered; the race detector only sees executed paths", "built with -race: a race report terminates the child process and is reported with its log"},
 		Cases: func(tier string) int {
@@ -105,6 +105,23 @@ func c08Case(seed uint64, caseNo int) (*tree.Tree, *tree.Tree) {
 		}
 	}
 	mutate(R, prior, 6, editOpt{Types: "fdl"})
+	if caseNo%3 == 2 {
+		// (merge-mode cases) a large directory where the source has a file:
+		// taking it away takes the receiver a while
+		n := 0
+		for _, e := range t.Entries {
+			if e.Type == tree.File && e.LinkTo == "" && t.GroupOf(e.Path) == "" && len(e.Data) > 30000 && strings.HasPrefix(e.Path, "z/") {
+				prior.Remove(e.Path)
+				prior.Entries = append(prior.Entries, tree.Entry{Path: e.Path, Type: tree.Dir, Perm: 0755, Mtime: 5})
+				for k := 0; k < 1200; k++ {
+					prior.Entries = append(prior.Entries, tree.Entry{Path: fmt.Sprintf("%s/old%04d", e.Path, k), Type: tree.File, Perm: 0644, Mtime: 5, Data: []byte("old")})
+				}
+				if n++; n == 8 {
+					break
+				}
+			}
+		}
+	}
 	prior.Put(tree.Entry{Path: "stale", Type: tree.Dir, Perm: 0755, Mtime: 5})
 	prior.Put(tree.Entry{Path: "stale/x", Type: tree.File, Perm: 0644, Mtime: 5, Data: []byte("x")})
 	prior.Sort()
@@ -185,7 +202,9 @@ func c08Run(c *core.Ctx) *core.Result {
 			}
 		}
 		res := runSync(syncOpt{Cfg: cfg, Src: sf, Dest: dest, Timeout: 240 * 1e9,
-			Recv: fsutil.ReceiveOpt{NotifyHashed: nrec.fn, ContentHasher: hs.fn}})
+			// (every third case in merge mode: each entry is an addition that
+			// is built next to what the destination holds and renamed over it)
+			Recv: fsutil.ReceiveOpt{NotifyHashed: nrec.fn, ContentHasher: hs.fn, Merge: caseNo%3 == 2}})
 		if res.Deadlock || res.TimedOut {
 			return nil, res, ""
 		}
@@ -227,6 +246,13 @@ func c08Run(c *core.Ctx) *core.Result {
 	if res0 != nil && checkHang(r, res0, desc+" (reference schedule)") {
 		return r
 	}
+	if strings.HasPrefix(problem, "transfer failed") {
+		// no fault is injected anywhere: the transfer of a legal tree into a
+		// legal prior destination has one outcome, and it is not an error
+		// (the other schedules of this case complete)
+		r.ViolateD("schedule-dependent-failure", map[string]any{"schedule": desc}, "%s (reference schedule): fault-free %s", desc, problem)
+		return r
+	}
 	if problem != "" || ref == nil {
 		r.Inconclusive = "reference schedule: " + problem
 		return r
@@ -235,11 +261,20 @@ func c08Run(c *core.Ctx) *core.Result {
 	if res != nil && checkHang(r, res, desc) {
 		return r
 	}
+	if strings.HasPrefix(problem, "transfer failed") {
+		// the reference schedule transferred the same source into the same
+		// prior destination without an error
+		r.ViolateD("schedule-dependent-failure", map[string]any{"schedule": desc}, "%s: %s, while the same transfer succeeds under the reference schedule", desc, problem)
+		return r
+	}
 	if problem != "" || out == nil {
 		r.Inconclusive = desc + ": " + problem
 		return r
 	}
 	r.Count("schedule_runs", 2)
+	if caseNo%3 == 2 {
+		r.Count("schedule_runs_in_merge_mode", 2)
+	}
 	if sched%4 == 2 {
 		// the same case with a peer that makes the session fail while many
 		// files are in flight (all ids requested in one burst, then one of
